@@ -93,6 +93,11 @@ def render (ps : List Piece) (v : Val) : List Tok := ps.map (Piece.render v)
 
 def redactedKey : List Piece := [.lit "KeyPair { secret: <redacted>, public: ", .pub, .lit " }"]
 
+/-- concrete key types (alg/*.rs): redacted, except `BlsKeyPair` whose `secret` field derives `Debug` over the scalar (D16) -/
+def keyFmt (a : Alg) : List Piece :=
+  if a.isBls then [.lit "BlsKeyPair { crv: ", .pub, .lit ", secret: Some(BlsSecretKey(0x", .secHex, .lit ")), public: ", .pub, .lit " }"]
+  else redactedKey
+
 /-- `Debug` of the current tree -/
 def debugFmt : Ty → List Piece
   | .secretBytes => [.lit "<secret>"]
@@ -107,11 +112,9 @@ def debugFmt : Ty → List Piece
   | .blsKeyGen => [.lit "BlsKeyGen { salt: None, ikm: ", .secDecList, .lit " }"]
   | .randomDet => [.lit "RandomDet {}"]
   | .jwkParts _ => [.lit "JwkParts { ", .pub, .lit ", d / k: \"", .secText, .lit "\", key_ops: None }"]
-  | .key a =>
-    if a.isBls then [.lit "BlsKeyPair { crv: ", .pub, .lit ", secret: Some(BlsSecretKey(0x", .secHex, .lit ")), public: ", .pub, .lit " }"]
-    else redactedKey
-  | .anyKey a => [.lit "KeyT("] ++ debugFmt (.key a) ++ [.lit ")"]
-  | .localKey a => [.lit "LocalKey { inner: KeyT("] ++ debugFmt (.key a) ++ [.lit "), ephemeral: false }"]
+  | .key a => keyFmt a
+  | .anyKey a => [.lit "KeyT("] ++ keyFmt a ++ [.lit ")"]
+  | .localKey a => [.lit "LocalKey { inner: KeyT("] ++ keyFmt a ++ [.lit "), ephemeral: false }"]
   | .encrypted => [.lit "Encrypted { buffer: <secret>, ", .pub, .lit " }"]
   | .keyEntry => [.lit "KeyEntry { ", .pub, .lit ", params: KeyParams { …, data: Some(<secret>) }, … }"]
   | .store => [.lit "Store(AnyBackend(WrapBackend(SqliteBackend { ", .pub, .lit " })))"]
@@ -129,7 +132,7 @@ inductive LogSite
 deriving DecidableEq, Repr
 
 def LogSite.leaky : LogSite → Bool
-  | .anyOptions => leaky (.options false) || leaky (.options true)
+  | .anyOptions => Askar.SecretFmt.leaky (Ty.options false) || Askar.SecretFmt.leaky (Ty.options true)
   | .label => false
 
 /-- scenario of a log capture: which sites fire, and whether the URI carried credentials -/
